@@ -479,7 +479,7 @@ Proof.
            rewrite EH. intros [= ->]. congruence.
         -- rewrite EH. discriminate.
   - (* UHandler *)
-    inv H. destruct (c_sub (u_ctx u) && hreg s); core;
+    inv H. destruct (c_sub (u_ctx u)); [destruct (hreg s)|]; core;
       (eapply P_dead; [exact I|exact OK| |apply (e_ok0 _ E)];
        rewrite ET; intros P; apply (e_pre _ E) in P; unfold u_pre in P; rewrite EPC in P; tauto).
 Qed.
